@@ -35,11 +35,11 @@ SampleVals(id) ==
   ELSE IF kd = "u8" THEN {1}
   ELSE IF kd = "u16" THEN IF Thorough THEN {1, 258, 65535} ELSE {258}
   ELSE IF kd = "u32" THEN IF Thorough THEN {<<0, 1>>, <<258, 772>>, <<65535, 65535>>} ELSE {<<258, 772>>}
-  ELSE IF kd = "vbi" THEN IF Thorough THEN {1, 127, 128, 16384, MaxVBI} ELSE {200}
+  ELSE IF kd = "vbi" THEN {200, 1, 127, 128, 16383, 16384, 2097151, 2097152, MaxVBI}    \* both sides of every width boundary
   ELSE IF kd = "str" THEN {Txt(3)}
   ELSE IF kd = "bin" THEN {<<0, 255, 128>>}
   ELSE {<<Txt(1), Txt(2)>>}
-SampleVal(id) == CHOOSE x \in SampleVals(id) : TRUE
+SampleVal(id) == IF PropKind(id) = "vbi" THEN 200 ELSE CHOOSE x \in SampleVals(id) : TRUE
 ZeroWire(id) ==
   LET kd == PropKind(id) IN
   IF kd \in {"bool", "u8", "u16", "vbi"} THEN 0 ELSE IF kd = "u32" THEN <<0, 0>> ELSE <<>>
@@ -234,6 +234,9 @@ SweepBase(t) ==
 (* positions (1-based, in the property sequence) where an extra property may be inserted *)
 WithProp(p, pos, pr) == [p EXCEPT !.v["Props"] = SubSeq(@, 1, pos - 1) \o <<pr>> \o SubSeq(@, pos, Len(@))]
 
+(* the value v spelled as four continuation bytes and a fifth byte (b5 = 0 or 128 adds nothing to the value) *)
+Pad5(v, b5) == <<128 + (v % 128), 128 + ((v \div 128) % 128), 128 + ((v \div 16384) % 128), 128 + ((v \div 2097152) % 128), b5>>
+
 RECURSIVE IdPositions(_, _)
 IdPositions(fm, i) == IF i > Len(fm) THEN <<>>
                       ELSE (IF fm[i].k = "id" THEN <<fm[i].s>> ELSE <<>>) \o IdPositions(fm, i + 1)
@@ -251,6 +254,11 @@ MutantCases ==
              \cup UNION {{[kind |-> "prefix", p |-> p, at |-> n] :
                        n \in LET len == Len(Encode(p)) IN IF len <= 300 THEN 0..(len - 1) ELSE (0..40) \cup ((len - 5)..(len - 1))} : p \in base}
              \cup {[kind |-> "rlfifth", p |-> one, b5 |-> b5] : b5 \in {0, 1, 127, 128, 255}}
+             \* every variable byte integer of the frame (remaining length = field 0, property lengths, subscription
+             \* identifiers) re-written as five bytes that spell the same value
+             \cup UNION {{[kind |-> "vbi5", p |-> p, fld |-> j, b5 |-> b5] :
+                            j \in {0} \cup {i \in 1..Len(StrictDecode(Encode(p)).fm) : StrictDecode(Encode(p)).fm[i].k = "vbi"},
+                            b5 \in {0, 128}} : p \in Sample(base, IF Thorough THEN 60 ELSE 8)}
           : t \in TYPES }
 
 MutantFrame(m) ==
@@ -261,6 +269,12 @@ MutantFrame(m) ==
            ids == IdPositions(StrictDecode(g).fm, 1)
        IN [g EXCEPT ![ids[m.pos]] = m.id]
   ELSE IF m.kind = "bool" THEN Encode(WithProp(m.p, m.pos, PV(m.id, m.val)))
+  ELSE IF m.kind = "vbi5" THEN
+       IF m.fld = 0 THEN <<f[1]>> \o Pad5(Len(f) - d.hdr, m.b5) \o SubSeq(f, d.hdr + 1, Len(f))
+       ELSE LET x == d.fm[m.fld]
+                val == DecVBI(f, x.s, Len(f), Len(f), FALSE).val
+                body == SubSeq(f, d.hdr + 1, x.s - 1) \o Pad5(val, m.b5) \o SubSeq(f, x.e + 1, Len(f))
+            IN <<f[1]>> \o VBI(Len(body)) \o body
   ELSE IF m.kind = "prefix" THEN SubSeq(f, 1, m.at)
   ELSE <<f[1], 255, 255, 255, 255, m.b5>> \o SubSeq(f, d.hdr + 1, Len(f))
 
@@ -272,6 +286,8 @@ MutantTheorems(m) ==
   IF m.kind \in {"cut", "undef", "bool"}
   THEN LET vd == Verdict(f) IN
        vd.kind = "reject" /\ vd.cls = (IF m.kind = "cut" THEN "cut" ELSE m.kind)
+  ELSE IF m.kind = "vbi5" /\ m.fld # 0
+  THEN LET vd == Verdict(f) IN vd.kind = "reject" /\ vd.cls = "fifth"
   ELSE TRUE
 
 (***************************************************************************)
